@@ -151,7 +151,8 @@ NotSymmetric == {"k_divergence", "kullback_leibler", "neyman", "pearson", "stati
 SimplexOnly == {"bhattacharyya", "kullback_leibler", "k_divergence"}
 RealDomain == {"euclidean", "squared_euclidean", "manhattan", "chebyshev", "average_euclidean", "gower", "non_intersection",
                "hamming", "lorentzian", "log_euclidean", "log_squared_euclidean", "gaussian",
-               "hassanat", "canberra"}        \* both are defined (and metrics / bounded) on all reals: Hassanat's second branch exists for negatives
+               "hassanat", "canberra",        \* both are defined (and metrics / bounded) on all reals: Hassanat's second branch exists for negatives
+               "cosine", "chord", "dice", "jaccard"}   \* inner-product forms: defined for signed vectors (cosine in [0, 2], chord in [0, 2])
 Domain(nm) == IF nm \in RealDomain THEN "real" ELSE IF nm \in SimplexOnly THEN "simplex" ELSE "nonneg"
 Claims(nm) ==
   IF nm = "statistic" THEN {"finite", "zeroself"}
